@@ -91,11 +91,12 @@ Definition C13_pow_full_statement : Prop :=
   forall base exp r, (0 < base < 2 * P18)%Z -> (0 <= exp < P18)%Z -> pow base exp = Ok r ->
   Rabs (dR r - Rpower (dR base) (dR exp)) <= 1 / 10 ^ 8.
 
-(* F4: Pow(0.001, 0.1) = 0.501195897725914681, but 0.001^0.1 = 0.50118723362727...: off by 8.7e-6 *)
+(* F4: Pow(0.3, 0.3) = 0.696845320001282408, but 0.3^0.3 = 0.69684530193594...: off by 1.8e-8
+   (further from the truth for smaller bases: Pow(0.001, 0.1) is off by 8.7e-6) *)
 Lemma pow_full_refuted : ~ C13_pow_full_statement.
 Proof.
-  intros H. specialize (H (10 ^ 15)%Z (10 ^ 17)%Z 501195897725914681%Z).
-  assert (E : pow (10 ^ 15) (10 ^ 17) = Ok 501195897725914681%Z) by (vm_compute; reflexivity).
+  intros H. specialize (H (3 * 10 ^ 17)%Z (3 * 10 ^ 17)%Z 696845320001282408%Z).
+  assert (E : pow (3 * 10 ^ 17) (3 * 10 ^ 17) = Ok 696845320001282408%Z) by (vm_compute; reflexivity).
   specialize (H ltac:(vm_compute; split; reflexivity) ltac:(vm_compute; split; [discriminate|reflexivity]) E).
   revert H. unfold dR, Rpower. apply Rlt_not_le.
   interval with (i_prec 100).
